@@ -208,6 +208,14 @@ func predIndex(to, from *cblock) int {
 // mergePhi computes the phi values of block X for the given incoming edges
 // as ite-terms. ok=false when a phi has non-scalar, differing inputs.
 func (ex *Exec) mergePhi(fr *frame, X *cblock, inc []redge) ([]Val, bool) {
+	return ex.mergePhiW(fr, X, inc, false)
+}
+
+// mergePhiW: allowWide=false refuses to merge differing 64-bit integers
+// (indices, lengths, counters): turning control dependence into a symbolic
+// index costs far more (ite chains over slices, later concretisation) than
+// the fork it saves. Bytes, runes and booleans are merged.
+func (ex *Exec) mergePhiW(fr *frame, X *cblock, inc []redge, allowWide bool) ([]Val, bool) {
 	out := make([]Val, X.nphi)
 	for k := 0; k < X.nphi; k++ {
 		ci := &X.instrs[k]
@@ -225,6 +233,9 @@ func (ex *Exec) mergePhi(fr *frame, X *cblock, inc []redge) ([]Val, bool) {
 		}
 		for _, v := range vals {
 			if !isScalarVal(v) {
+				return nil, false
+			}
+			if i, ok := v.(Int); ok && i.W > 32 && !allowWide {
 				return nil, false
 			}
 		}
@@ -446,7 +457,7 @@ func (ex *Exec) evalPure(cf *cfunc, args []Val) Val {
 			}
 			g = ex.orTerms(gs)
 			if X.nphi > 0 {
-				phis, ok := ex.mergePhi(fr, X, inc)
+				phis, ok := ex.mergePhiW(fr, X, inc, true)
 				if !ok {
 					panic(unsupported{"evalPure: phi merge in " + cf.fn.String()})
 				}
